@@ -67,7 +67,7 @@ def min_image_dist(cell, p, others):
     return G.equal_mod_lattice(cell, np.asarray(others, float), np.asarray(p, float)[None, :]).min()
 
 
-def place(rng, cell, rotated, crossings, existing, min_sep, tries=200):
+def place(rng, cell, rotated, crossings, existing, min_sep, tries=200, on_face=False):
     """translate `rotated` (n,3) so that its atoms straddle exactly `crossings` cell coordinates (None = anywhere).
     -> (positions unwrapped, measured crossings) or None"""
     inv = np.linalg.inv(cell)
@@ -98,9 +98,15 @@ def place(rng, cell, rotated, crossings, existing, min_sep, tries=200):
             if not ok:
                 return None
         pos = cen + c.dot(cell)
+        if on_face and crossings is not None:
+            # put one atom of the copy exactly on a cell face (fractional coordinate 0 up to rounding)
+            k = int(rng.integers(3))
+            i = int(rng.integers(len(pos)))
+            fi = pos[i].dot(inv)
+            pos = pos - ((fi[k] - np.round(fi[k])) * np.eye(3)[k]).dot(cell)
         fl = np.floor(pos.dot(inv) + 1e-12)
         measured = int(sum(len(set(fl[:, k])) > 1 for k in range(3)))
-        if crossings is not None and measured != crossings:
+        if crossings is not None and measured != crossings and not on_face:
             continue
         if all(min_image_dist(cell, p, existing) >= min_sep for p in pos):
             return pos, measured
@@ -134,7 +140,7 @@ def build(rng, pattern, cell_cls, atol, n_copies=2, crossings=None, poses=None, 
         for _ in range(30):
             R = pose_rotation(rng, pose, ppos, cell)
             rot = ppos.dot(R.T)
-            placed = place(rng, cell, rot, crossings[k % len(crossings)], positions, min_sep)
+            placed = place(rng, cell, rot, crossings[k % len(crossings)], positions, min_sep, on_face=(pose == "random" and rng.integers(6) == 0))
             if placed is not None:
                 break
         if placed is None:
